@@ -24,8 +24,8 @@ from tools import vlib
 from tools.vlib import Outcome, sx
 
 MANIFEST = {
-    "level_text": "Coq theorems (Properties/C19.v, no axioms) about a Gallina transcription of save_to_tauri_config / from_tauri_config / validate (config.rs) and of the configuration phase of run_generate and run_init (bin): for every JSON document, every settings value (all twelve fields), every path into the document outside plugins.typegen, every set of files and every flag set: an accepted save preserves every other path (C19_preserve) and reads back as the settings written (C19_roundtrip); the save is refused with an error exactly when the root or plugins is not an object (C19_save_refused); init refuses invalid settings and unwritable documents without touching any file, for tauri.conf.json and for standalone targets (C19_init_reject_first, C19_init_unsaveable, C19_init_file_reject_first, C19_init_file_no_overwrite, C19_init_file_document) and otherwise leaves save_doc of the old document (C19_init_document); generate uses flag over file over default for all observable settings and refuses invalid effective settings without a write (C19_precedence, C19_generate_reject_first) for every set of files and flag set. The standalone configuration file (save_to_file / from_file as serde derives them; generate -c) and the build-script loader are modelled next to it: exact round trip for all twelve fields (C19_roundtrip_file), flag over standalone file over default (C19_precedence_file, C19_generate_c), file over default in the build script (C19_precedence_build), the build-script statement on the complement of the class C19-9, with a computed counterexample. Round 7: every boolean run-time oracle is tied to a Prop-level statement by a reflection theorem and is proved to accept the model for every input: json_eqb / config_eqb / eff_eqb decide equality (C19_json_eqb_reflect, C19_config_eqb_reflect, C19_eff_eqb_reflect); preserved_b fuel = every path of length <= fuel outside the section has the same value, and = every path at all when fuel exceeds the depth of both documents (C19_oracle_preserved_reflect, C19_oracle_preserved_reflect_all), accepted for save_doc of every document and settings value at any fuel (C19_oracle_preserved_model); roundtrip_b / flat_roundtrip_b / roundtrip_lres_b / lib_ok_b (C19_oracle_roundtrip_reflect, _file_reflect, _lres_reflect, C19_oracle_lib_reflect, C19_oracle_lib_model); generate_ok_b and generate_c_ok_b (C19_oracle_precedence_reflect, C19_oracle_precedence_model, C19_oracle_precedence_file_reflect, C19_oracle_precedence_file_model: for every file system, flag set and -c path); the build-script oracle accepts the model wherever it does not demand a refusal (C19_oracle_build_model). Newly inside the model, each with a correspondence stream against the real code: a standalone file that states a field twice (refused by the derived reader: C19_file_duplicate_refused), a standalone file whose root is an array (read by position, at most twelve elements: C19_file_shape_refused, and C19_precedence_file / C19_generate_c now cover it), init -o <file> whose directory does not exist / is a regular file / which is a directory (C19_init_file_unwritable: error, nothing created), the project detection of the build script over the working directory and its parent, tauri.conf.js included (C19_precedence_build_at, C19_build_detect_precedence, C19_build_detect_none, C19_build_detect_here). The model is tied to /repo on every run: library calls on random documents (compared as JSON values) and the real binary on all 2^5 flag subsets x configuration-file variants and on random init runs.",
-    "level_note": "JSON numbers are opaque tokens of serde_json's number model (u64/i64/f64): preservation of numbers is equality of those values, not of their spelling (1e3 comes back as 1000.0). Parsing and printing of JSON text (serde_json) is outside the model: the model starts from the value serde_json reads, the oracle from the reference reading of the text (a misread decimal is therefore reported). Analysis and generation are reduced to which project, which output directory, which mode. Path existence is an input of the model (the set of paths that name something, as the standard library's exists() sees the sandbox): how stat() fails for a path that names nothing is below the model and exercised by the generators only. Not modelled: output paths that cannot be created; project detection of the build script above the parent of the working directory (the check assumes no tauri.conf.json / tauri.conf.js / src-tauri above its sandboxes) and the src_tauri_path / devPath reading of the scanner (not used for the configuration); the verbosity of the build script (not observable); EACCES shapes (the check runs as root). Members of a standalone file are given to the model in text order with repetitions (python object_pairs_hook), values inside them on the reference reading. Reading choice: a standalone file that states one of the twelve fields twice is malformed and must be refused like any other malformed -c file (what the code does); the build script falls back on it (inside C19-9). A refusal of init -o <file> because the file cannot be created is accepted by the oracle, not demanded (the text does not ask for directories to be created); the model refuses, so a change there shows as a correspondence disagreement only. Force is observed through an immediate identical second run (relies on the cache being stable for a one-command project). Oracles: preserved_b is run with fuel 40, so at run time it decides preservation for paths up to length 40 (the generated documents nest far less deep, so C19_oracle_preserved_reflect_all applies to them); init_ok_b, init_file_ok_b and build_ok_detect_b have no Prop-level counterpart of their own - they are compositions of the reflected pieces (preserved_b, roundtrip_b, flat_roundtrip_b, eff_eqb_build) and only build_ok_detect_b is proved to accept the model (where it demands no refusal).",
+    "level_text": "Coq theorems (Properties/C19.v, no axioms) about a Gallina transcription of save_to_tauri_config / from_tauri_config / validate (config.rs) and of the configuration phase of run_generate and run_init (bin): for every JSON document, every settings value (all twelve fields), every path into the document outside plugins.typegen, every set of files and every flag set: an accepted save preserves every other path (C19_preserve) and reads back as the settings written (C19_roundtrip); the save is refused with an error exactly when the root or plugins is not an object (C19_save_refused); init refuses invalid settings and unwritable documents without touching any file, for tauri.conf.json and for standalone targets (C19_init_reject_first, C19_init_unsaveable, C19_init_file_reject_first, C19_init_file_no_overwrite, C19_init_file_document) and otherwise leaves save_doc of the old document (C19_init_document); generate uses flag over file over default for all observable settings and refuses invalid effective settings without a write (C19_precedence, C19_generate_reject_first) for every set of files and flag set. The standalone configuration file (save_to_file / from_file as serde derives them; generate -c) and the build-script loader are modelled next to it: exact round trip for all twelve fields (C19_roundtrip_file), flag over standalone file over default (C19_precedence_file, C19_generate_c), file over default in the build script (C19_precedence_build), the build-script statement on the complement of the class C19-9, with a computed counterexample. Round 7: every boolean run-time oracle is tied to a Prop-level statement by a reflection theorem and is proved to accept the model for every input: json_eqb / config_eqb / eff_eqb decide equality (C19_json_eqb_reflect, C19_config_eqb_reflect, C19_eff_eqb_reflect); preserved_b fuel = every path of length <= fuel outside the section has the same value, and = every path at all when fuel exceeds the depth of both documents (C19_oracle_preserved_reflect, C19_oracle_preserved_reflect_all), accepted for save_doc of every document and settings value at any fuel (C19_oracle_preserved_model); roundtrip_b / flat_roundtrip_b / roundtrip_lres_b / lib_ok_b (C19_oracle_roundtrip_reflect, _file_reflect, _lres_reflect, C19_oracle_lib_reflect, C19_oracle_lib_model); generate_ok_b and generate_c_ok_b (C19_oracle_precedence_reflect, C19_oracle_precedence_model, C19_oracle_precedence_file_reflect, C19_oracle_precedence_file_model: for every file system, flag set and -c path); the build-script oracle accepts the model wherever it does not demand a refusal (C19_oracle_build_model); the init oracles (C19_oracle_init_reflect, C19_oracle_init_file_reflect, C19_oracle_init_model, C19_oracle_init_file_model). Newly inside the model, each with a correspondence stream against the real code: a standalone file that states a field twice (refused by the derived reader: C19_file_duplicate_refused), a standalone file whose root is an array (read by position, at most twelve elements: C19_file_shape_refused, and C19_precedence_file / C19_generate_c now cover it), init -o <file> whose directory does not exist / is a regular file / which is a directory (C19_init_file_unwritable: error, nothing created), the project detection of the build script over the working directory and its parent, tauri.conf.js included (C19_precedence_build_at, C19_build_detect_precedence, C19_build_detect_none, C19_build_detect_here). The model is tied to /repo on every run: library calls on random documents (compared as JSON values) and the real binary on all 2^5 flag subsets x configuration-file variants and on random init runs.",
+    "level_note": "JSON numbers are opaque tokens of serde_json's number model (u64/i64/f64): preservation of numbers is equality of those values, not of their spelling (1e3 comes back as 1000.0). Parsing and printing of JSON text (serde_json) is outside the model: the model starts from the value serde_json reads, the oracle from the reference reading of the text (a misread decimal is therefore reported). Analysis and generation are reduced to which project, which output directory, which mode. Path existence is an input of the model (the set of paths that name something, as the standard library's exists() sees the sandbox): how stat() fails for a path that names nothing is below the model and exercised by the generators only. Not modelled: output paths that cannot be created; project detection of the build script above the parent of the working directory (the check assumes no tauri.conf.json / tauri.conf.js / src-tauri above its sandboxes) and the src_tauri_path / devPath reading of the scanner (not used for the configuration); the verbosity of the build script (not observable); EACCES shapes (the check runs as root). Members of a standalone file are given to the model in text order with repetitions (python object_pairs_hook), values inside them on the reference reading. Reading choice: a standalone file that states one of the twelve fields twice is malformed and must be refused like any other malformed -c file (what the code does); the build script falls back on it (inside C19-9). A refusal of init -o <file> because the file cannot be created is accepted by the oracle, not demanded (the text does not ask for directories to be created); the model refuses, so a change there shows as a correspondence disagreement only. Force is observed through an immediate identical second run (relies on the cache being stable for a one-command project). Oracles: preserved_b is run with fuel 40, so at run time it decides preservation for paths up to length 40 (the generated documents nest far less deep, so C19_oracle_preserved_reflect_all applies to them); init_ok_b and init_file_ok_b are reflected and accept the model as well (C19_oracle_init_reflect, C19_oracle_init_file_reflect, C19_oracle_init_model, C19_oracle_init_file_model, under the side condition that the generated-files directory is not the target itself); build_ok_detect_b has no Prop-level counterpart of its own and is proved to accept the model only where it demands no refusal (outside C19-9).",
     "technique": "Rocq/Coq proof over hand-written model + correspondence check (extracted OCaml vs Rust harness and the real CLI binary in sandboxes)",
     "design_ref": "DESIGN.md section 5 C19, section 11 (preserve/save_writes/roundtrip/precedence spike)"
 }
@@ -49,7 +49,7 @@ RULE = ("lib: random JSON documents (depth <= 5; Unicode, escaped and surrogate-
         "distinct = distinct cases by content hash")
 TRUSTED = [
     "serde_json 1.0.151 (default features: no preserve_order, no arbitrary_precision, no float_roundtrip) parsing/printing; python json as the reference reader of documents",
-    "Spec/C19Spec.v: the Prop-level readings of the oracles (preserved_P, lib_ok_P, generate_ok_P, generate_c_ok_P) - the boolean oracles lib_ok_b, preserved_b, roundtrip_b, generate_ok_b, generate_c_ok_b are proved equivalent to them; init_ok_b, init_file_ok_b, build_ok_detect_b are trusted as compositions of those pieces",
+    "Spec/C19Spec.v: the Prop-level readings of the oracles (preserved_P, lib_ok_P, generate_ok_P, generate_c_ok_P) - the boolean oracles lib_ok_b, preserved_b, roundtrip_b, generate_ok_b, generate_c_ok_b are proved equivalent to them; init_ok_b / init_file_ok_b likewise (init_ok_P, init_file_ok_P); build_ok_detect_b and eff_eqb_build are trusted as written",
     "observation of the real binary: exit status, byte snapshot of the sandbox, commands.ts header and wrapper name, marker lines in the output",
 ]
 ASSUMPTIONS = [
